@@ -329,11 +329,16 @@ enum { N_F, N_G, N_Z, NNAME };
 static const char *name_txt[NNAME] = { "f", "g", "zz_absent" };
 static char *sname[NNAME];                    /* shared-string pointers (as call_other / call_out / add_action pass them) */
 static char lit_f[] = "f";                    /* a C literal, as most driver applies pass */
-enum { O_CO, O_COLPC, O_DRV, O_DRVLIT, O_COUT, O_TRAMP, O_FP, O_FEX, NORG };
-static const char *oname[NORG] = { "call_other", "call_other-lpc", "driver", "driver-literal", "call_out", "local", "funptr", "function_exists" };
+enum { O_CO, O_COLPC, O_DRV, O_DRVLIT, O_COUT, O_TRAMP, O_FP, O_FEX, O_DEEP, NORG };
+static const char *oname[NORG] = { "call_other", "call_other-lpc", "driver", "driver-literal", "call_out", "local", "funptr", "function_exists",
+                                   "call_other-at-max-call-depth" };
+static int ndeep;                              /* recursion count that leaves no room for the callee's frame (calibrated per element) */
 
 typedef struct { int tgt, name, org; } letter_t;
 #define MAXL 80
+static char *held[1200]; static int nheld;        /* name strings created by the salt (address order), references kept */
+#define NSALTN 25
+static int opt_len, opt_prune, opt_salts, opt_bin, opt_deep;
 static letter_t L[MAXL];
 static int nL;
 static char *cold[MAXL];
@@ -389,6 +394,10 @@ static char *do_call (object_t *o, int org, const char *name, char *shname) {
     r = hx_apply_origin (caller_ob, fn, 1, ORIGIN_DRIVER);
     break;
   }
+  case O_DEEP:
+    push_number (ndeep); push_object (o);
+    r = hx_apply_origin (caller_ob, "deep_f", 2, ORIGIN_DRIVER);
+    break;
   case O_DRV: r = hx_apply_origin (o, shname, 0, ORIGIN_DRIVER); break;
   case O_DRVLIT: r = hx_apply_origin (o, name, 0, ORIGIN_DRIVER); break;
   case O_COUT: r = hx_apply_origin (o, shname, 0, ORIGIN_CALL_OUT); break;
@@ -518,7 +527,8 @@ static void build_alphabet (void) {
     int istop = S.tprog[t] == S.top;
     for (int org = 0; org < NORG; org++)
       for (int nm = 0; nm < NNAME; nm++) {
-        if ((org == O_COLPC || org == O_DRVLIT || org == O_TRAMP || org == O_FP) && nm != N_F) continue;
+        if ((org == O_COLPC || org == O_DRVLIT || org == O_TRAMP || org == O_FP || org == O_DEEP) && nm != N_F) continue;
+        if (org == O_DEEP && (!opt_deep || ndeep <= 0)) continue;
         if ((org == O_TRAMP || org == O_FP) && !istop) continue;
         const prog_t *T = &S.p[S.top];
         if (S.graph != 5) {
@@ -590,6 +600,13 @@ static void check_cold_letter (int li, const char *obs, const char *when) {
         snprintf (key, sizeof key, "C07:visibility:call_other-ran-%s:%s", kname[S.p[R].kind], early ? "prototype-before-inherit" : shape_class ());
         set_fail (key, "%s %s ran %s.f which is declared %s: %s", when, lt, S.p[R].nm, kname[S.p[R].kind], obs);
       }
+      /* ... nor one that this program inherited through a `static inherit` / `private inherit` clause */
+      if (!declared_restricted && R >= 0 && (X->fl & MF_RESTRICTED) && ran_f (obs)) {
+        int early = 0;
+        for (int x = 0; x < S.nprog; x++) if (S.p[x].kind == K_PROTO_EARLY) early = 1;
+        snprintf (key, sizeof key, "C07:visibility:call_other-ran-through-%s-inherit:%s", (X->fl & MF_STATIC) ? "static" : "private", early ? "prototype-before-inherit" : shape_class ());
+        set_fail (key, "%s %s ran %s.f although %s has it only through a restricting inherit clause: %s", when, lt, S.p[R].nm, X->nm, obs);
+      }
       /* (iii) nothing restricts it: the most derived definition must run */
       if (R >= 0 && !(X->fl & MF_RESTRICTED)) {
         snprintf (want, sizeof want, "\"%s\"", tag);
@@ -648,7 +665,7 @@ static void run_probes (int record, char **rec_into, const char *when) {
           if (strcmp (res, want)) { snprintf (key, sizeof key, "C07:resolve:%s:%s", shape_class (), form == 0 ? "super-call" : "named-super-call"); set_fail (key, "%s %s() on %s%s = %s, reference resolver says %s", when, fn, S.p[S.tprog[t]].nm, S.tclone[t] ? "#clone" : "", obs, want); }
           if (k < 64) rec_into[k] = strdup (obs);
         } else if (k < 64 && rec_into[k] && strcmp (rec_into[k], obs))
-          set_fail ("C07:compile:second-compile-differs", "%s %s() on %s = %s, first compile gave %s", when, fn, S.p[S.tprog[t]].nm, obs, rec_into[k]);
+          set_fail (opt_bin ? "C07:binary:result-differs-after-load-binary" : "C07:compile:second-compile-differs", "%s %s() on %s = %s, first compile gave %s", when, fn, S.p[S.tprog[t]].nm, obs, rec_into[k]);
         k++;
         vx_count (2, 1);
       }
@@ -724,6 +741,24 @@ static void history_diff (int n, int i, const char *obs) {
   set_fail (key, "history [%s]: call %d gives %s, the same call on a cold cache gives %s", h, i + 1, obs, c);
 }
 
+/* the cache owns one reference per entry name: once it is cleared, every name must be back at its cold count */
+static unsigned short ref0[64]; static int nref;
+static void ref_snapshot (void) {
+  clear_apply_cache ();
+  nref = 0;
+  for (int i = 0; i < nheld && i < NSALTN; i++) ref0[nref++] = MSTR_REF (held[i]);
+}
+static void ref_check (int n) {
+  clear_apply_cache ();
+  for (int i = 0; i < nref; i++)
+    if (MSTR_REF (held[i]) != ref0[i]) {
+      char h[500], lt[80]; int k = 0, deep = 0;
+      for (int j = 0; j < n; j++) { letter_text (seq[j], lt, sizeof lt); k += snprintf (h + k, sizeof h - k, "%s%s", j ? " ; " : "", lt); if (L[seq[j]].org == O_DEEP) deep = 1; }
+      set_fail (deep ? "C07:history:name-refcount-drift-after-too-deep-recursion-in-apply" : "C07:history:name-refcount-drift",
+                "history [%s] then clear_apply_cache(): shared string \"%s\" has %d references, %d before the history", h, held[i], MSTR_REF (held[i]), ref0[i]);
+      ref0[i] = MSTR_REF (held[i]);
+    }
+}
 static void run_history (int n) {
   clear_apply_cache ();
   for (int i = 0; i < n; i++) {
@@ -736,6 +771,7 @@ static void run_history (int n) {
       if ((l->org == O_CO || l->org == O_COLPC) && l->name == N_F) check_cold_letter (seq[i], obs, "after a history,");
     }
   }
+  if (nref) ref_check (n);
   n_hist++;
 }
 static void enum_histories (int d, int maxlen) {
@@ -777,22 +813,27 @@ static void explore_states (int depth) {
 
 /* ------------------------------------------------------------------ salts: program-id parity and name-address order */
 static const char *salt_names[] = { "f", "g", "zz_absent", "tramp_f", "fp_f", "upB_f", "upC_f", "upD_f", "upE_f", "viaB_f", "viaC_f", "viaP_f", "viaQ_f",
-                                    "setv_A", "setv_B", "setv_C", "setv_D", "setv_E", "setv_P", "setv_Q", "co_f", "co_g", "co_z" };
-#define NSALTN ((int) (sizeof salt_names / sizeof salt_names[0]))
+                                    "setv_A", "setv_B", "setv_C", "setv_D", "setv_E", "setv_P", "setv_Q", "co_f", "co_g", "co_z", "deep_f", "deep_g" };
+typedef char salt_names_size_check[(sizeof salt_names / sizeof salt_names[0]) == NSALTN ? 1 : -1];
+static void hold (const char *s) { if (nheld < 1200) held[nheld++] = make_shared_string (s); }
 static void apply_salt (int s) {
   if (s & 1) get_id_number ();
-  for (int i = 0; i < NSALTN; i++) make_shared_string (salt_names[(s & 2) ? NSALTN - 1 - i : i]);     /* refs held for the whole element */
+  for (int i = 0; i < NSALTN; i++) hold (salt_names[(s & 2) ? NSALTN - 1 - i : i]);     /* refs held until release_salt() */
   if (S.graph == 5) {
     hshape_t h = hshape_of (S.hshape);
     char fn[16];
-    for (int i = 0; i < h.M; i++) { snprintf (fn, sizeof fn, "h%d", (s & 2) ? h.M - 1 - i : i); make_shared_string (fn); }
-    for (int i = 0; i < h.M2; i++) { snprintf (fn, sizeof fn, "k%d", (s & 2) ? h.M2 - 1 - i : i); make_shared_string (fn); }
+    for (int i = 0; i < h.M; i++) { snprintf (fn, sizeof fn, "h%d", (s & 2) ? h.M - 1 - i : i); hold (fn); }
+    for (int i = 0; i < h.M2; i++) { snprintf (fn, sizeof fn, "k%d", (s & 2) ? h.M2 - 1 - i : i); hold (fn); }
   }
   for (int i = 0; i < NNAME; i++) sname[i] = make_shared_string (name_txt[i]);
 }
+static void release_salt (void) {
+  for (int i = 0; i < nheld; i++) free_string (held[i]);
+  nheld = 0;
+  for (int i = 0; i < NNAME; i++) { free_string (sname[i]); sname[i] = 0; }
+}
 
 /* ------------------------------------------------------------------ one element */
-static int opt_len, opt_prune, opt_salts, opt_bin;
 static int n_loaded_binaries;
 program_t *__real_load_binary (const char *name);
 program_t *__wrap_load_binary (const char *name) {
@@ -866,6 +907,17 @@ static void elem (long idx) {
     return;
   }
   if (!make_targets (pre1, blue)) return;
+  /* calibrate the recursion count for the call_other-at-max-call-depth letters on g (public, same frame structure as f):
+     n0 = least n for which deep_g(n) overflows (in the simul_efun call inside g); n0 + 1 overflows in apply_low's own push */
+  ndeep = 0;
+  if (opt_deep) {
+    for (int n = CONFIG_INT (__MAX_CALL_DEPTH__) - 8; n <= CONFIG_INT (__MAX_CALL_DEPTH__); n++) {
+      push_number (n); push_object (tob[0]);
+      svalue_t *r = hx_apply_origin (caller_ob, "deep_g", 2, ORIGIN_DRIVER);
+      if (!r && strstr (hx_last_error, "Too deep recursion")) { ndeep = n + 1; break; }
+    }
+    if (ndeep <= 0) vx_fail ("C07:harness:deep-calibration", "no recursion count overflows: %s", hx_last_error);
+  }
   build_alphabet ();
 
   /* cold results */
@@ -886,7 +938,16 @@ static void elem (long idx) {
     char *cold1[MAXL]; memcpy (cold1, cold, sizeof cold1);
     if (hx_guard (guarded_destruct, blue)) { vx_fail ("C07:harness:destruct", "%s", hx_last_error); return; }
     clear_apply_cache ();
+    /* the binaries are normally read by another process: give every function name a new address, allocated in the
+       opposite order, so that the tables saved in compile-time address order have to be re-sorted */
+    int f_below_g = sname[N_F] < sname[N_G];
+    destruct_object (caller_ob); remove_destructed_objects ();
+    release_salt ();
     for (int i = 0; i < NSALTN; i++) { char pad[40]; snprintf (pad, sizeof pad, "c07-pad-%d", i); make_shared_string (pad); }
+    apply_salt ((salt ^ 2) & 2);
+    vx_count (10, f_below_g != (sname[N_F] < sname[N_G]));
+    caller_ob = hx_load ("/caller.c", 0);
+    if (!caller_ob) { vx_fail ("C07:harness:caller", "cannot reload caller: %s", hx_last_error); return; }
     n_loaded_binaries = 0;
     int r2 = load_set (pre1, 1, blue, 2);
     if (r2 >= 0) { set_fail ("C07:binary:reload-failed", "program %s failed to load again: %s", S.p[r2].nm, clog_txt); return; }
@@ -929,6 +990,7 @@ static void elem (long idx) {
 
   /* histories */
   n_hist = n_calls = 0;
+  ref_snapshot ();
   if (selftest == 2) { free (cold[0]); cold[0] = strdup ("\"selftest-model\"|"); }
   if (opt_len > 0) enum_histories (0, opt_len);
   if (opt_prune > 8) opt_prune = 8;
@@ -966,6 +1028,7 @@ int main (int argc, char **argv) {
   opt_prune = (int) vx_opt_long ("prune-depth", 0);
   opt_salts = (int) vx_opt_long ("salts", 1);
   opt_bin = (int) vx_opt_long ("bin", 0);
+  opt_deep = (int) vx_opt_long ("deep", 1);
   selftest = (int) vx_opt_long ("selftest", 0);
   /* scratch copy of the C07 mudlib (binaries and generated sources are written below it); on tmpfs when
      there is one: the round trip creates and deletes ~10 files per element */
@@ -995,6 +1058,7 @@ int main (int argc, char **argv) {
   vx_count_name (7, "elements_with_f_below_g_in_address_order");
   vx_count_name (8, "programs_loaded_from_binary");
   vx_count_name (9, "elements_whose_cache_state_space_closed");
+  vx_count_name (10, "binary_reloads_with_name_address_order_flipped");
   if (opt_salts < 1) opt_salts = 1;
   if (opt_salts > 4) opt_salts = 4;
   /* --no-compress=1: leave out the 14 compression shapes (the last sets of the enumeration) */
